@@ -66,6 +66,8 @@ def gen_worlds(seed, n):
         sg = simgen.signature(w)
         if "zero_runtime" in sg:
             continue           # F8: a zero-runtime strategy livelocks simulate(); exercised in its own stream (C05)
+        if "branch_sink" in sg:
+            continue           # F42: a sink inside an untaken branch makes the whole graph count as cancelled (C07 replays it)
         if "join_direct_edge_cancelling" in sg:
             continue           # FTG3: the join reached by a direct edge survives the cancellation of the taken branch (C06 replays it)
         ws.append(w)
